@@ -28,7 +28,7 @@ Theorem C10_request :
     if dmem key_eqb (w_internal (s_w s)) (pres_key (m_node m))
     then (inr e, with_internal s (dset key_eqb (w_internal (s_w s)) (pres_key (m_node m)) pm))
     else
-      match write (encode pm) s with
+      match write_msg pm s with
       | (inl _, s1) => (inr e, with_internal s1 (dset key_eqb (w_internal (s_w s1)) (pres_key (m_node m)) pm))
       | (inr e', s1) => (inr e', s1)
       end.
